@@ -61,6 +61,9 @@ class Ctx:
         self.strong = set()       # indices into self.side of 'strong' (nonlinear defining) constraints
         self._decided = {}        # z3 ast id -> decision (cache; ids are stable while the ast is alive)
         self._keep = []
+        self._logs = {}
+        self._logseen = set()
+        self.domain = []          # (function name, z3 condition): arguments that must lie in the function's domain
 
     # ---- naming
     def fresh(self, name, sort='real'):
@@ -320,6 +323,7 @@ class Sym:
                 CTX._sqrts[k] = (r, r)
                 # real power of a positive base is positive; monotone in the base for p > 0
                 CTX.side.append(z3.Implies(self.e > 0, r > 0))
+                CTX.domain.append(('pow', self.e >= 0))
         return Sym(r)
 
     def __rpow__(self, b):
